@@ -11,7 +11,7 @@ PROPS = {
             'behaviour of MergeOnce after it first returned None beyond what its invariant says',
         ]),
     'C19': dict(
-        units=['heaps'], level='proof',
+        units=['heaps', 'heightwalk'], level='proof',
         replays=['c19_limit.rs'],
         uncovered=[
             'that closing a cycle through binds reaches ensure_height_requirement with the offending pair (graph walk in adjust_heights: not under contract)',
@@ -91,6 +91,7 @@ PROPS = {
 LEMMA_PROPS = {
     'symfold': {'*': ['C18']},
     'heaps': {'*': ['C19']},
+    'heightwalk': {'*': ['C19']},
     'expert': {'*': ['C14']},
     'handlers': {'*': ['C09']},
     'observer': {'lemma_handler_count_invariant': ['C11', 'C09'], 'lemma_lifecycle': ['C10'], '*': ['C10']},
